@@ -44,7 +44,7 @@ OUT_JSON = os.path.join(HERE, "hash_sites.json")
 ACCOUNTED = os.path.join(HERE, "hash_sites_accounted.json")
 OUT_LEAN = os.path.join(HERE, "..", "lean", "NitroVerif", "Gen", "HashSites.lean")
 
-HASH_TYPES = {"HashMap", "HashSet"}
+HASH_TYPES = {"HashMap", "HashSet", "FxHashMap", "FxHashSet", "AHashMap", "AHashSet", "DashMap", "DashSet"}
 ITER_METHODS = {"iter", "iter_mut", "keys", "values", "values_mut", "into_iter", "into_keys", "into_values", "drain", "retain"}
 CONSUMERS = {"extend", "from_iter", "chain", "zip"}
 # methods that hand the receiver's container on (the result is hash-typed when the receiver is)
@@ -60,7 +60,7 @@ class ScanError(Exception):
 # lexical layer
 
 def blank_comments_and_strings(text):
-    """same length as `text`; comments, string / char literals replaced by spaces (newlines kept)"""
+    """comments, string / char literals replaced by spaces (newlines kept); the `r#` of raw identifiers dropped"""
     out = list(text)
     i, n = 0, len(text)
 
@@ -112,6 +112,12 @@ def blank_comments_and_strings(text):
                 i += len(m.group(0))
             else:
                 i += 1
+        elif c == "r" and text.startswith("r#", i) and (i == 0 or not (text[i - 1].isalnum() or text[i - 1] == "_")) \
+                and i + 2 < n and (text[i + 2].isalpha() or text[i + 2] == "_"):
+            # raw identifier r#type: keep the identifier, glue it to what precedes (`x.r#type` -> `x.  type` would break paths)
+            out[i] = ""
+            out[i + 1] = ""
+            i += 2
         else:
             i += 1
     return "".join(out)
@@ -404,18 +410,75 @@ class Scan:
         self.alias = set()       # type alias names that are hash types
         self.fields = {}         # field name -> declaration note
         self.hash_fns = {}       # fn / method name -> declaration note
+        self.iter_fns = {}       # fn / method name returning an iterator over a hash container -> declaration note
+        self.typedefs = {}       # struct / enum / alias name -> text of its definition (for the carrier closure)
+        self.nonhash_decl = {}   # field name -> [struct names declaring it with a non-hash type]
+        self.hash_decl = {}      # field name -> [struct names declaring it with a hash type]
+        self.field_types = {}    # field name -> [declared type texts]
+        self.fn_rets = {}        # fn name -> [return type texts]
+        self.dismissed = {}      # field name -> number of sites dismissed by the ambiguity rule
+        self._carriers = {}
+        self.ctx = {}
         self.sites = []
 
     def hash_names(self):
         return HASH_TYPES | self.alias
 
+    def carriers(self, field):
+        """names whose presence in a function means a value of a struct declaring `field` as a hash container may be
+        at hand: the declaring structs, every type that (transitively) contains one, functions returning such a type,
+        fields declared with such a type"""
+        if field in self._carriers:
+            return self._carriers[field]
+        types = set(self.hash_decl.get(field, []))
+        changed = True
+        while changed:
+            changed = False
+            for name, text in self.typedefs.items():
+                if name not in types and mentions_hash(text, types):
+                    types.add(name)
+                    changed = True
+        names = set(types)
+        for fn, rets in self.fn_rets.items():
+            if any(mentions_hash(r, types) for r in rets):
+                names.add(fn)
+        for f, tys in self.field_types.items():
+            if f != field and any(mentions_hash(t, types) for t in tys):
+                names.add(f)
+        self._carriers[field] = names
+        return names
+
+    def field_is_hash(self, expr, field):
+        """`expr` = `<prefix>.<field>` with `field` declared as a hash container in some struct"""
+        if field not in self.nonhash_decl:
+            return True
+        prefix = re.sub(r"\s+", "", expr)
+        prefix = prefix[:prefix.rfind("." + field)] if ("." + field) in prefix else ""
+        prefix = prefix.lstrip("&*")
+        if prefix.startswith("mut"):
+            prefix = prefix[3:]
+        if prefix == "self" and self.ctx.get("impl_type"):
+            if self.ctx["impl_type"] in self.hash_decl.get(field, []):
+                return True
+            if self.ctx["impl_type"] in self.nonhash_decl.get(field, []):
+                self.dismissed[field] = self.dismissed.get(field, 0) + 1
+                return False
+        if mentions_hash(self.ctx.get("fn_text", ""), self.carriers(field)):
+            return True          # unresolved: must be accounted for by hand
+        self.dismissed[field] = self.dismissed.get(field, 0) + 1
+        return False
+
     def is_hash_expr(self, expr, local):
         seg = last_segment(expr)
         if seg[0] == "name":
-            return seg[1] in local or seg[1] in self.fields and ("." in expr)
+            if seg[1] in local:
+                return True
+            return seg[1] in self.fields and ("." in expr) and self.field_is_hash(expr, seg[1])
         if seg[0] == "call":
             _, callee, recv, args = seg
             if callee in self.hash_fns:
+                return True
+            if callee in self.iter_fns and self.ctx.get("fn_name") != callee:
                 return True
             if callee in PASS_THROUGH and recv:
                 return self.is_hash_expr(recv, local)
@@ -439,21 +502,40 @@ class Scan:
             for m in re.finditer(r"\bstruct\s+(" + IDENT + r")\b[^;{(]*\{", text):
                 end = match_close(text, m.end() - 1, "{", "}")
                 body = text[m.end():end - 1]
+                self.typedefs[m.group(1)] = self.typedefs.get(m.group(1), "") + " " + body
                 for part in split_top(body):
                     fm = re.match(r"\s*(?:#\[[^\]]*\]\s*)*(?:pub(?:\([^)]*\))?\s+)?(" + IDENT + r")\s*:\s*(.*)$", part, flags=re.S)
-                    if fm and mentions_hash(fm.group(2), self.hash_names()):
+                    if not fm:
+                        continue
+                    self.field_types.setdefault(fm.group(1), []).append(fm.group(2))
+                    if mentions_hash(fm.group(2), self.hash_names()):
                         self.fields.setdefault(fm.group(1), f"{rel}: struct {m.group(1)}")
+                        self.hash_decl.setdefault(fm.group(1), []).append(m.group(1))
+                    else:
+                        self.nonhash_decl.setdefault(fm.group(1), []).append(m.group(1))
+            for m in re.finditer(r"\bstruct\s+(" + IDENT + r")\b[^;{(]*\(", text):
+                end = match_close(text, m.end() - 1, "(", ")")
+                self.typedefs[m.group(1)] = self.typedefs.get(m.group(1), "") + " " + text[m.end():end - 1]
+            for m in re.finditer(r"\btype\s+(" + IDENT + r")\s*(<[^=]*>)?\s*=\s*([^;]*);", text):
+                self.typedefs[m.group(1)] = self.typedefs.get(m.group(1), "") + " " + m.group(3)
             # enum struct-variants
             for m in re.finditer(r"\benum\s+(" + IDENT + r")\b[^;{(]*\{", text):
                 end = match_close(text, m.end() - 1, "{", "}")
                 body = text[m.end():end - 1]
+                self.typedefs[m.group(1)] = self.typedefs.get(m.group(1), "") + " " + body
                 for fm in re.finditer(r"\b(" + IDENT + r")\s*:\s*", body):
                     ty = type_text_after(body, fm.end())
+                    self.field_types.setdefault(fm.group(1), []).append(ty)
                     if mentions_hash(ty, self.hash_names()):
                         self.fields.setdefault(fm.group(1), f"{rel}: enum {m.group(1)}")
+                        self.hash_decl.setdefault(fm.group(1), []).append(m.group(1))
+                    else:
+                        self.nonhash_decl.setdefault(fm.group(1), []).append(m.group(1))
             for (name, params, ret, bstart, bend, at) in functions(text):
-                if "->" in ret and mentions_hash(ret.split("->", 1)[1], self.hash_names()):
-                    self.hash_fns.setdefault(name, rel)
+                if "->" in ret:
+                    self.fn_rets.setdefault(name, []).append(ret.split("->", 1)[1])
+                    if mentions_hash(ret.split("->", 1)[1], self.hash_names()):
+                        self.hash_fns.setdefault(name, rel)
 
     # -- pass 2: sites ----------------------------------------------------------------------------
     def local_names(self, params, body):
@@ -524,6 +606,17 @@ class Scan:
 
     def scan_body(self, rel, fn, params, body):
         local = self.local_names(params, body)
+        for itf in self.iter_fns:
+            if itf == fn:
+                continue
+            for m in re.finditer(r"(\.\s*)?\b" + re.escape(itf) + r"\s*\(", body):
+                if re.search(r"\bfn\s+$", body[:m.start()]):
+                    continue
+                if m.group(1):
+                    start, recv = receiver_before(body, m.start())
+                    self.add_site(rel, fn, recv.strip() + "." + itf + "()", "via-iterator-fn")
+                else:
+                    self.add_site(rel, fn, itf + "()", "via-iterator-fn")
         # method-call iteration
         for m in re.finditer(r"\.\s*(" + IDENT + r")\s*(?:::\s*<[^>]*>\s*)?\(", body):
             meth = m.group(1)
@@ -535,7 +628,7 @@ class Scan:
                 end = match_close(body, m.end() - 1, "(", ")")
                 arg = body[m.end():end - 1].strip()
                 if arg and "|" not in arg and self.is_hash_expr(arg, local):
-                    self.add_site(rel, fn, meth + "(" + arg + ")", "consumer")
+                    self.add_site(rel, fn, meth + "<-" + arg, "consumer")
         for m in re.finditer(r"\b(" + "|".join(sorted(CONSUMERS)) + r")\s*\(", body):
             if m.start() > 0 and body[m.start() - 1] == ".":
                 continue
@@ -545,7 +638,7 @@ class Scan:
             end = match_close(body, m.end() - 1, "(", ")")
             arg = body[m.end():end - 1].strip()
             if arg and self.is_hash_expr(arg, local):
-                self.add_site(rel, fn, m.group(1) + "(" + arg + ")", "consumer")
+                self.add_site(rel, fn, m.group(1) + "<-" + arg, "consumer")
         # for loops
         for m in re.finditer(r"\bfor\s+", body):
             # pattern up to ` in ` at depth 0
@@ -582,9 +675,9 @@ class Scan:
             expr = body[found + 2:q].strip()
             if expr and self.is_hash_expr(expr, local):
                 seg = last_segment(expr)
-                if seg[0] == "call" and seg[1] in ITER_METHODS:
-                    continue    # already reported as a method site
-                self.add_site(rel, fn, "for…in " + expr, "for")
+                if seg[0] == "call" and (seg[1] in ITER_METHODS or seg[1] in self.iter_fns):
+                    continue    # already reported as a method / iterator-function site
+                self.add_site(rel, fn, "for-in:" + expr, "for")
 
     def run(self):
         test_mod_files = set()
@@ -607,9 +700,48 @@ class Scan:
                 raise ScanError(f"{rel}: unbalanced braces after blanking")
             self.texts[rel] = text
         self.declarations()
+        while True:
+            self.sites = []
+            self.dismissed = {}
+            self.scan_all()
+            new_iter = {}
+            for s in self.sites:
+                rets = self.fn_rets_at.get((s["file"], s["function"]), "")
+                if re.search(r"\bIterator\b", rets) and s["function"] not in self.iter_fns:
+                    new_iter[s["function"]] = s["file"]
+            if not new_iter:
+                break
+            self.iter_fns.update(new_iter)
+        self.merge()
+
+    def scan_all(self):
+        self.fn_rets_at = {}
         for rel, text in sorted(self.texts.items()):
+            impls = []
+            for m in re.finditer(r"\bimpl\b", text):
+                k = m.end()
+                depth = 0
+                while k < len(text):           # header up to the `{` at angle depth 0
+                    c = text[k]
+                    if c == "<":
+                        depth += 1
+                    elif c == ">" and text[k - 1] != "-":
+                        depth -= 1
+                    elif c == "{" and depth <= 0:
+                        break
+                    elif c == ";" and depth <= 0:
+                        k = -1
+                        break
+                    k += 1
+                if k < 0 or k >= len(text):
+                    continue
+                header = text[m.end():k]
+                header = re.split(r"\bwhere\b", header)[0]
+                target = header.split(" for ")[-1] if re.search(r"\bfor\b", header) else re.sub(r"^\s*<.*?>\s*(?=[A-Za-z_&])", "", header, count=1, flags=re.S)
+                tm = re.search(r"(" + IDENT + r")\s*(<|$|\s)", target.strip())
+                impls.append((k, match_close(text, k, "{", "}"), tm.group(1) if tm else None))
             fns = [f for f in functions(text) if f[3] is not None]
-            # outermost functions only (nested ones are scanned with their parent, but named by the innermost fn)
+            # every function is scanned on its own body with nested fns blanked
             for (name, params, ret, bstart, bend, at) in fns:
                 inner = [g for g in fns if g[3] > bstart and g[4] < bend]
                 body = list(text[bstart:bend])
@@ -617,7 +749,16 @@ class Scan:
                     for q in range(g[5] - bstart, g[4] - bstart):
                         if 0 <= q < len(body) and body[q] != "\n":
                             body[q] = " "
-                self.scan_body(rel, name, params, "".join(body))
+                body = "".join(body)
+                impl_type = None
+                for (a, b, t) in impls:
+                    if a < bstart and bend <= b:
+                        impl_type = t
+                self.ctx = {"fn_name": name, "impl_type": impl_type, "fn_text": params + " " + ret + " " + body}
+                self.fn_rets_at[(rel, name)] = self.fn_rets_at.get((rel, name), "") + " " + ret
+                self.scan_body(rel, name, params, body)
+
+    def merge(self):
         # merge duplicates
         merged = {}
         for s in self.sites:
@@ -701,7 +842,66 @@ def write_lean(accounted):
             f.write(new)
 
 
+SELFTEST_SRC = r'''
+use std::collections::{HashMap, HashSet};
+type Table<'a> = HashMap<&'a str, usize>;
+pub struct Ctx<'a> { pub names: Table<'a>, pub order: Vec<&'a str>, seen: HashSet<String> }
+pub struct Ast { pub names: Vec<String> }
+impl<'a> Ctx<'a> {
+    pub fn all(&self) -> impl Iterator<Item = (&&'a str, &usize)> { self.names.iter() }          // SITE all: self.names.iter()
+    fn ordered(&self) -> Vec<usize> { self.order.iter().filter_map(|n| self.names.get(n).copied()).collect() } // lookup only
+    fn dump(&self) -> Vec<String> { let mut v: Vec<_> = self.seen.iter().cloned().collect(); v.sort(); v }  // SITE dump
+}
+impl Ast { fn f(&self) -> usize { self.names.iter().count() } }                                  // Vec: dismissed (impl type)
+fn make(xs: &[(String, u32)]) -> HashMap<String, u32> { xs.iter().cloned().collect() }           // iterates a slice
+fn user(c: &Ctx, a: &Ast) -> usize {
+    let m = make(&[]);
+    let mut n = 0;
+    for (k, v) in &m { n += *v as usize + k.len(); }                                             // SITE user: for-in:&m
+    for (_k, _v) in c.all() { n += 1; }                                                          // SITE user: c.all()
+    let s: HashSet<u32> = m.values().copied().collect();                                         // SITE user: m.values()
+    let mut out = vec![]; out.extend(s);                                                         // SITE user: extend(s)
+    let folded = [1u32].iter().fold(m.clone(), |acc, _| acc);
+    n += folded.keys().count();                                                                  // SITE user: folded.keys()
+    n + a.names.iter().count() + "m.iter()".len() // m.iter() in a comment                       // unresolved (Ctx at hand): SITE a.names.iter()
+}
+fn plain(a: &Ast) -> usize { a.names.iter().count() }                                            // dismissed (no carrier in fn)
+#[cfg(test)]
+mod tests { use super::*; #[test] fn t() { let m: HashMap<u8, u8> = HashMap::new(); for _ in m.iter() {} } }
+'''
+
+SELFTEST_EXPECT = [
+    ("all", "self.names.iter(…)"), ("dump", "self.seen.iter(…)"), ("user", "for-in:&m"), ("user", "c.all(…)"),
+    ("user", "m.values(…)"), ("user", "extend<-s"), ("user", "folded.keys(…)"), ("user", "a.names.iter(…)"),
+]
+
+
+def selftest():
+    """the scanner finds exactly the planted sites of a synthetic module (guards the scanner itself)"""
+    sc = Scan()
+    text = blank_comments_and_strings(SELFTEST_SRC)
+    text, _ = remove_test_code(text)
+    sc.texts = {"selftest.rs": text}
+    sc.declarations()
+    while True:
+        sc.sites = []
+        sc.scan_all()
+        new = {s["function"]: s["file"] for s in sc.sites
+               if re.search(r"\bIterator\b", sc.fn_rets_at.get((s["file"], s["function"]), "")) and s["function"] not in sc.iter_fns}
+        if not new:
+            break
+        sc.iter_fns.update(new)
+    sc.merge()
+    got = sorted((s["function"], s["expr"]) for s in sc.sites)
+    if got != sorted(SELFTEST_EXPECT):
+        print("hash_sites: SELF-TEST FAILED\n  expected", sorted(SELFTEST_EXPECT), "\n  got     ", got)
+        return False
+    return True
+
+
 def main():
+    if not selftest():
+        return 2
     sc = Scan()
     try:
         sc.run()
@@ -714,6 +914,10 @@ def main():
         "hash_type_aliases": sorted(sc.alias),
         "hash_fields": {k: sc.fields[k] for k in sorted(sc.fields)},
         "hash_returning_functions": {k: sc.hash_fns[k] for k in sorted(sc.hash_fns)},
+        "hash_iterator_returning_functions": {k: sc.iter_fns[k] for k in sorted(sc.iter_fns)},
+        "ambiguous_fields": {k: {"hash_in": sorted(set(sc.hash_decl.get(k, []))), "non_hash_in": sorted(set(sc.nonhash_decl[k])),
+                                 "sites_dismissed_by_rule": sc.dismissed.get(k, 0)}
+                             for k in sorted(sc.fields) if k in sc.nonhash_decl},
         "files_scanned": len(sc.texts),
         "sites": found,
     }
